@@ -16,7 +16,21 @@ Proof. exact show_shape. Qed.
 Theorem C20_parse_total : forall s, parse_id s <> Panic /\ parse_id s <> Fuel.
 Proof. exact parse_total. Qed.
 
+(* EXACTLY WHAT IS ACCEPTED: Ok n iff the text has at least the minimal length, byte 3 is a character
+   boundary and the rest is an optional '+' followed by a non-empty string of ASCII digits whose
+   decimal value is n <= u32::MAX (core's u32::from_str); every other text is Err(ParseIntError) *)
+Theorem C20_parse_accepts_exactly : forall s n, parse_id s = Ok n <->
+  ID_MIN_LEN <= Nlen s /\ is_char_boundary s ID_PREFIX_LEN = true /\
+  exists ds, ds <> [] /\ Forall is_digit ds /\ n = dval ds 0 /\ n <= U32_MAX /\
+    (skipn (N.to_nat ID_PREFIX_LEN) s = ds \/ skipn (N.to_nat ID_PREFIX_LEN) s = 43 :: ds).
+Proof. exact parse_id_spec. Qed.
+
+Theorem C20_parse_error_kind : forall s, (exists n, parse_id s = Ok n) \/ parse_id s = Err ParseIntError.
+Proof. exact parse_id_error_kind. Qed.
+
 Print Assumptions C20_parse_show.
 Print Assumptions C20_be_bytes_roundtrip.
 Print Assumptions C20_show_shape.
 Print Assumptions C20_parse_total.
+Print Assumptions C20_parse_accepts_exactly.
+Print Assumptions C20_parse_error_kind.
